@@ -44,7 +44,7 @@ func c15RPCRound(r *verifkit.Run, round, nOps, nSubs int) {
 		r.Inconclusive("cannot open database: " + err.Error())
 		return
 	}
-	defer db.Close()
+	defer mdkClose(db)
 	srv, err := mdkServe(db)
 	if err != nil {
 		r.Inconclusive("cannot start rpc server: " + err.Error())
